@@ -4,6 +4,10 @@ defects (from known_findings.json) and seeded changes (from seeded/*/meta.json +
 import glob, json, os, re
 
 MISSED = {
+ # round 7 (M, N; started for six properties, cut short by the end of the session)
+ 'C16-N': 'tokens that expired 2 s, 20 s, 90 s and 10 min ago (before: one hour and longer): "unexpired" has no grace period',
+ 'C13-M': 'judged a miss from its description before any run (clients only merged NEW keys): every client also owns an existing key of the shared node and overwrites it with increasing numbers',
+ 'C13-N': '**not caught**: the change makes the shutdown path hang; the check ends INCONCLUSIVE after its external watchdog instead of reporting the panic in Unsubscribe after Close (the post-Close bus calls were moved to a guarded goroutine, which was not enough)',
  # round 6 (K, L; ten properties)
  'C06-L': 'list replacement steps (lists given as []any, []string, []int) and filter literals that a record held and lost (plus literals of the generator\'s vocabulary that no live record may hold)',
  'C09-K': 'the text field is also overwritten with JSON null and with an object (sequential and concurrent parts)',
@@ -109,6 +113,8 @@ def seeds():
         n += 1
         if sid in MISSED:
             how = '**missed at first** → ' + MISSED[sid] + (' — now caught by ' + ', '.join(caught) if caught and not r.get('obsolete') else '')
+            if sid == 'C13-N':
+                how = '**missed** → ' + MISSED[sid]
         else:
             caught_first += 1
             how = 'yes (' + ', '.join(caught) + ')'
